@@ -704,3 +704,203 @@ Qed.
 Print Assumptions C08_single_tree_refuted.
 
 End Refute.
+
+(* ================================================================== *)
+(* The CONCRETE search refines the mirrors above; the theorems transfer.
+   Model/Search.v (quiescence, leaf_node, negamax, go_full) is the executable model that is tied to the engine by exact
+   differential runs (node counts, scores, PVs); Proofs/ChessGame.v instantiates the abstract game with chess,
+   Proofs/SearchRefine.v proves the refinement.  Everything is relative to
+     C03_family T good Q      make/unmake are inverse on the boards of the search  (Proofs/SearchProofs.v)
+     good n b -> sane b       well formed, consistent castling rights and e.p. square (ZobristProofs.good)
+     quiet orc, plain_go g    no abort, no message, no time control, no searchmoves: polls do not change values
+   and, from depth 2 on, ND T good (distinct legal moves give distinct positions), ply_unique (as above) and
+   half-move clock + depth < 6 (then the repetition leaf cannot fire, whatever the game history). *)
+Require Import Ink.Model.Tables Ink.Model.Board Ink.Model.Search.
+Require Ink.Lib.Str Ink.Model.HashTable Ink.Model.History Ink.Proofs.ZobristProofs Ink.Proofs.MakeUnmake Ink.Gen.Tables.
+Require Import Ink.Proofs.SearchProofs Ink.Proofs.ChessGame Ink.Proofs.SearchRefine.
+Require Coq.Strings.String.
+Open Scope Z_scope.
+
+(* ---- the chess instance satisfies the hypotheses of the abstract game ---- *)
+Theorem C08_chess_noisy_sub : forall T : Tables.t,
+  noisy_sub board (ChessGame.succs T) (ChessGame.noisy_succs T).
+Proof. exact chess_noisy_sub. Qed.
+Print Assumptions C08_chess_noisy_sub.
+
+Theorem C08_chess_qmeasure_dec : forall T : Tables.t, ZobristProofs.gen_masks_ok T = true ->
+  qmeasure_dec board (ChessGame.noisy_succs T) ChessGame.qmeasure.
+Proof. exact chess_qmeasure_dec. Qed.
+Print Assumptions C08_chess_qmeasure_dec.
+
+Theorem C08_chess_noisy_any_ok : forall T : Tables.t, ZobristProofs.gen_masks_ok T = true ->
+  noisy_any_ok board (ChessGame.noisy_succs T) (ChessGame.noisy_any T).
+Proof. exact chess_noisy_any_ok. Qed.
+Print Assumptions C08_chess_noisy_any_ok.
+
+(* on a sane board the noisy successors are exactly the legal children of the capture generator *)
+Theorem C08_chess_noisy_succs_sane : forall (T : Tables.t) (b : board), sane b = true ->
+  ChessGame.noisy_succs T b = ChessGame.children T b (gen_nonquiet T b).
+Proof. exact noisy_succs_sane. Qed.
+Print Assumptions C08_chess_noisy_succs_sane.
+
+(* the fuel the engine gives its capture search is more than the measure *)
+Theorem C08_qfuel_suffices : forall b : board, wf b = true -> (ChessGame.qmeasure b < qfuel b)%nat.
+Proof. exact qmeasure_lt_qfuel. Qed.
+Print Assumptions C08_qfuel_suffices.
+
+(* ---- (a) quiescence ---- *)
+Theorem C08_quiescence_refines : forall T : Tables.t, ZobristProofs.gen_masks_ok T = true ->
+  forall (good : nat -> board -> Prop) (Q : nat), C03_family T good Q ->
+  (forall n b, good n b -> sane b = true) ->
+  forall (fuel : nat) (alpha beta : Z) (zph : N) (st : sstate),
+  good fuel (s_board st) -> (ChessGame.qmeasure (s_board st) < fuel)%nat ->
+  vm_value (fst (quiescence T fuel alpha beta zph st)) =
+  fst (qs_ab board (ChessGame.noisy_succs T) (ChessGame.static T) (order_q T) (ChessGame.qmeasure (s_board st))
+         (s_board st) alpha beta).
+Proof. exact quiescence_refines_closed. Qed.
+Print Assumptions C08_quiescence_refines.
+
+Theorem C08_quiescence_concrete : forall T : Tables.t, ZobristProofs.gen_masks_ok T = true ->
+  forall (good : nat -> board -> Prop) (Q : nat), C03_family T good Q ->
+  (forall n b, good n b -> sane b = true) ->
+  forall (fuel : nat) (alpha beta : Z) (zph : N) (st : sstate),
+  good fuel (s_board st) -> (ChessGame.qmeasure (s_board st) < fuel)%nat -> alpha < beta ->
+  vm_value (fst (quiescence T fuel alpha beta zph st)) =
+  clamp alpha beta (Minimax.qs board (ChessGame.noisy_succs T) (ChessGame.static T) ChessGame.qmeasure (s_board st)).
+Proof. exact quiescence_concrete_closed. Qed.
+Print Assumptions C08_quiescence_concrete.
+
+(* ---- (b) the horizon node ---- *)
+Theorem C08_horizon_refines : forall T : Tables.t, ZobristProofs.gen_masks_ok T = true ->
+  forall (good : nat -> board -> Prop) (Q : nat), C03_family T good Q ->
+  (forall n b, good n b -> sane b = true) ->
+  forall (alpha beta : Z) (zph : N) (st : sstate),
+  good (S Q) (s_board st) ->
+  vm_value (fst (leaf_node T (turn (s_board st)) alpha beta zph (gen_pseudo T (s_board st)) st)) =
+  fst (horizon_ab board (ChessGame.succs T) (ChessGame.noisy_succs T) (ChessGame.noisy_any T) (ChessGame.static T)
+         (ChessGame.terminal T) ChessGame.qmeasure (order_q T) (s_board st) alpha beta).
+Proof. exact leaf_node_refines_closed. Qed.
+Print Assumptions C08_horizon_refines.
+
+Theorem C08_horizon_concrete : forall T : Tables.t, ZobristProofs.gen_masks_ok T = true ->
+  forall (good : nat -> board -> Prop) (Q : nat), C03_family T good Q ->
+  (forall n b, good n b -> sane b = true) ->
+  forall (alpha beta : Z) (zph : N) (st : sstate),
+  good (S Q) (s_board st) ->
+  alpha < horizon board (ChessGame.succs T) (ChessGame.noisy_succs T) (ChessGame.noisy_any T) (ChessGame.static T)
+            (ChessGame.terminal T) ChessGame.qmeasure (s_board st) < beta ->
+  vm_value (fst (leaf_node T (turn (s_board st)) alpha beta zph (gen_pseudo T (s_board st)) st)) =
+  horizon board (ChessGame.succs T) (ChessGame.noisy_succs T) (ChessGame.noisy_any T) (ChessGame.static T)
+    (ChessGame.terminal T) ChessGame.qmeasure (s_board st).
+Proof. exact leaf_node_concrete_closed. Qed.
+Print Assumptions C08_horizon_concrete.
+
+(* ---- (c)/(d) node level: search_negamax = negamax_tt for SOME ordering oracle that is a permutation, the concrete
+   table being related entry by entry (depth, value, bound type) to the abstract one; [node_ok] spells it out ---- *)
+Theorem C08_negamax_refines : forall T : Tables.t, ZobristProofs.gen_masks_ok T = true ->
+  forall (good : nat -> board -> Prop) (Q : nat), C03_family T good Q ->
+  (forall n b, good n b -> sane b = true) ->
+  ZobristProofs.keys_rows_ok T = true ->
+  (forall n b, good n b -> - win_score T < ChessGame.static T b < win_score T) ->
+  forall orc : oracle, quiet orc ->
+  forall K : nat, ((K <= 1)%nat \/ ND T good) -> forall k : nat, (k <= K)%nat ->
+  node_ok T good Q (static_sat T) orc k.
+Proof. exact negamax_refines_closed. Qed.
+Print Assumptions C08_negamax_refines.
+
+(* ---- (c) `go depth 1`: exact value nm 1 and a best move attaining it; no hypothesis on keys or on make ---- *)
+Theorem C08_depth1_concrete : forall T : Tables.t, ZobristProofs.gen_masks_ok T = true ->
+  forall (good : nat -> board -> Prop) (Q : nat), C03_family T good Q ->
+  (forall n b, good n b -> sane b = true) ->
+  ZobristProofs.keys_rows_ok T = true -> 0 < win_score T ->
+  (forall n b, good n b -> - win_score T < ChessGame.static T b < win_score T) ->
+  forall orc : oracle, quiet orc ->
+  forall (g : go_params) (st : sstate), g_depth g = Some 1%N -> plain_go g ->
+  good (1 + S Q)%nat (s_board st) -> (half (s_board st) < 5)%N ->
+  root_empty T (s_board st) = false -> inb T 1 (s_board st) ->
+  Forall (exact_rec T (static_sat T) (s_board st) 0) (fst (go_full T orc g st)) /\
+  (ChessGame.succs T (s_board st) <> [] ->
+   exists it, fst (go_full T orc g st) = [it] /\ exact_rec T (static_sat T) (s_board st) 0 it).
+Proof. exact depth1_concrete_closed. Qed.
+Print Assumptions C08_depth1_concrete.
+
+(* ---- (d) `go depth dd`: every iteration the engine reports is exact for its depth, and when the root has a legal move
+   all max(dd,1) iterations run, so the newest record is the exact value nm (max dd 1) with a best move attaining it.
+   [exact_rec T stat root d it] :  it_depth it = d+1,  vm_value (it_result it) = nm (d+1) root,  and (root has a move ->
+   the record is not aborted and its move m leads to a legal successor q with - nm d q = nm (d+1) root) ---- *)
+Theorem C08_go_depth_concrete : forall T : Tables.t, ZobristProofs.gen_masks_ok T = true ->
+  forall (good : nat -> board -> Prop) (Q : nat), C03_family T good Q ->
+  (forall n b, good n b -> sane b = true) ->
+  ZobristProofs.keys_rows_ok T = true -> 0 < win_score T ->
+  (forall n b, good n b -> - win_score T < ChessGame.static T b < win_score T) ->
+  forall orc : oracle, quiet orc ->
+  forall sim : nat -> board -> board -> Prop,
+  (forall (r' r : nat) (x y : board), sim r' x y -> (r <= r')%nat ->
+     nm board (ChessGame.succs T) (ChessGame.noisy_succs T) (ChessGame.noisy_any T) (static_sat T) (ChessGame.terminal T)
+        ChessGame.qmeasure r x =
+     nm board (ChessGame.succs T) (ChessGame.noisy_succs T) (ChessGame.noisy_any T) (static_sat T) (ChessGame.terminal T)
+        ChessGame.qmeasure r y) ->
+  (forall (r r' : nat) (x y : board), (r <= r')%nat -> sim r' x y -> sim r x y) ->
+  forall (g : go_params) (st : sstate) (dd : N), g_depth g = Some dd ->
+  ((depth_of dd <= 1)%nat \/ ND T good) -> plain_go g ->
+  good (depth_of dd + S Q)%nat (s_board st) -> (half (s_board st) + N.of_nat (depth_of dd) < 6)%N ->
+  ply_unique board (ChessGame.succs T) (zobrist_hash T) sim (depth_of dd) (s_board st) ->
+  root_empty T (s_board st) = false -> inb T (depth_of dd) (s_board st) ->
+  Forall (fun it => exists d : nat, (S d <= depth_of dd)%nat /\ exact_rec T (static_sat T) (s_board st) d it)
+         (fst (go_full T orc g st)) /\
+  (ChessGame.succs T (s_board st) <> [] ->
+   exists it rest, fst (go_full T orc g st) = it :: rest /\
+                   exact_rec T (static_sat T) (s_board st) (pred (depth_of dd)) it).
+Proof. exact go_depth_concrete_closed. Qed.
+Print Assumptions C08_go_depth_concrete.
+
+(* the saturated static evaluation is the engine's wherever that is inside (loss_score, win_score) *)
+Theorem C08_static_sat : forall (T : Tables.t) (b : board),
+  - win_score T < ChessGame.static T b < win_score T -> static_sat T b = ChessGame.static T b.
+Proof. exact static_sat_eq. Qed.
+Print Assumptions C08_static_sat.
+
+(* the table conditions hold for the tables of the current tree *)
+Theorem C08_tables_ok :
+  ZobristProofs.gen_masks_ok Ink.Gen.Tables.tables = true /\ ZobristProofs.keys_rows_ok Ink.Gen.Tables.tables = true /\
+  0 < win_score Ink.Gen.Tables.tables.
+Proof. split; [exact ZobristProofs.gen_gen_masks_ok|split; [exact ZobristProofs.gen_keys_rows_ok|reflexivity]]. Qed.
+Print Assumptions C08_tables_ok.
+
+(* ---- a closed cross-check by computation: the concrete `go depth 3` and the spec value nm, K+P v K+P ---- *)
+Module ExChess.
+Import Coq.Strings.String.StringSyntax.
+Definition T := Ink.Gen.Tables.tables.
+Definition b1 : board := MakeUnmake.board_of_text (Str.lit "4k3/8/8/3p4/4P3/8/8/4K3 w - - 0 1").
+Definition st1 : sstate :=
+  {| s_board := b1; s_tt := HashTable.new tt_entry 4096; s_killers := []; s_history := History.hempty; s_pv := None;
+     s_nm_nodes := 0%N; s_q_nodes := 0%N; s_stop := false; s_quit := false; s_reset_next := false; s_ponder_hit := false;
+     s_go := go_default; s_pmoves := []; s_debug := false; s_try_prev_pv := true; s_contempt := contempt T;
+     s_out := []; s_drains := O; s_reads := O; s_panicked := false; s_fuel_out := false |}.
+Definition orc1 : oracle := {| abort_at := None; poll := 100000%N; inbox := fun _ => []; elapsed := fun _ => 0%N |}.
+Definition g3 : go_params :=
+  {| g_searchmoves := []; g_wtime := None; g_btime := None; g_winc := None; g_binc := None; g_depth := Some 3%N;
+     g_movetime := None |}.
+Definition NMc := nm board (ChessGame.succs T) (ChessGame.noisy_succs T) (ChessGame.noisy_any T) (static_sat T)
+                     (ChessGame.terminal T) ChessGame.qmeasure.
+
+Example concrete_go_depth_3 :
+  map (fun it => (it_depth it, vm_value (it_result it), it_aborted it)) (fst (go_full T orc1 g3 st1)) =
+    [(3%N, 125, false); (2%N, 95, false); (1%N, 125, false)] /\
+  (NMc 1%nat b1, NMc 2%nat b1, NMc 3%nat b1) = (125, 95, 125) /\
+  sane b1 = true /\ quiet orc1 /\ plain_go g3.
+Proof.
+  split; [vm_compute; reflexivity|]. split; [vm_compute; reflexivity|]. split; [vm_compute; reflexivity|].
+  split; [split; reflexivity|repeat split; reflexivity].
+Qed.
+Print Assumptions concrete_go_depth_3.
+
+(* why ChessGame.noisy_succs is guarded by [sane]: with a bogus e.p. square (accepted by the FEN reader) the capture
+   generator emits an "e.p. capture" that takes nothing - the raw list violates both qmeasure_dec and noisy_any_ok *)
+Definition bx : board := MakeUnmake.board_of_text (Str.lit "4k3/8/8/3P4/8/8/8/4K3 w - e6 0 1").
+Example raw_capture_list_needs_sane :
+  sane bx = false /\ ChessGame.noisy_any T bx = false /\
+  map ChessGame.qmeasure (noisy_succs_raw T bx) = [ChessGame.qmeasure bx] /\ ChessGame.noisy_succs T bx = [].
+Proof. vm_compute. repeat split; reflexivity. Qed.
+Print Assumptions raw_capture_list_needs_sane.
+End ExChess.
